@@ -142,10 +142,12 @@ int main(void)
         /* (late=1) somebody was turned away earlier in this round (limit reached, or the callback said no); now there is room and the
            callback agrees: a further peer must be admitted -- a refusal is about that one attempt */
         if (late && npeers < MAXP && CS104_Slave_getOpenConnections(slave) < limit) {
+            int late_req = __sync_add_and_fetch(&nreq, 0) + 1;      /* number this connection request will get at the callback */
             char a[64]; snprintf(a, sizeof a, "10.0.1.%d:%d", 1 + npeers % 200, 3000 + npeers);
             pthread_mutex_lock(&mx); peers[npeers] = Sim_newPeer(a); npeers++; pthread_mutex_unlock(&mx);
             WAIT_FOR(peers[npeers - 1]->destroyed || count_ev(npeers - 1, 0) > 0);
-            if (count_ev(npeers - 1, 0) == 0)
+            /* (when this very request is the one the callback was told to turn away, the refusal is the callback's, not a leftover) */
+            if (count_ev(npeers - 1, 0) == 0 && !(deny > 0 && late_req == deny))
                 printf("bad not-admitted-after-refusal a peer connecting while %d of %d allowed connections are open (callback agreeing) was turned away in round %d; earlier in the round %d attempts were refused\n",
                        CS104_Slave_getOpenConnections(slave), limit, r, (conns - opened) > 0 ? conns - opened : 0);
         }
